@@ -6,6 +6,7 @@ import (
 	"io"
 	"log"
 	"os"
+	"runtime/debug"
 
 	"verif/checks"
 	"verif/engine/world"
@@ -19,6 +20,10 @@ func main() {
 	log.SetOutput(io.Discard) // x/did logs "[warn] unknown key type" through the std logger
 	code := 2
 	defer func() {
+		if r := recover(); r != nil {
+			fmt.Fprintf(os.Stderr, "HARNESS ERROR: panic: %v\n%s\n", r, debug.Stack())
+			code = 2
+		}
 		world.CleanScratch()
 		os.Exit(code)
 	}()
